@@ -472,7 +472,9 @@ func runReplay(c map[string]any) common.Result {
 			got = errClass(err)
 			w.evals++
 			if got != expRes {
-				if b, _ := exp["sconf"].(bool); b && expRes == "retry" && got == "ok" {
+				if b, _ := exp["sconf"].(bool); b && expRes == "retry" && (got == "ok" || got == "nothing") {
+					// ("nothing": dolt_commit found nothing to commit, committed the SQL transaction -- accepting the
+					// staged conflict -- and then reported "nothing to commit")
 					// candidate finding: conflict in the merge of the staged root / moved head accepted silently.
 					// The real state has diverged from the model's; the behaviour ends here.
 					stat["ended_at_staged_conflict"]++
